@@ -36,6 +36,7 @@ def actionOfJson (j : Json) : Option Action := do
       (← (jField? j "fields").bind jInts?))
   else if a == "poll" then pure .poll
   else if a == "rejected" then pure (.rejected (← nat "sub"))
+  else if a == "stopapp" then pure (.stopApp (← nat "app"))
   else if a == "wait" then
     pure (.wait (← nat "sub") (← (jField? j "kind").bind jStr? |>.bind kindOf) (← int "addr") (← nat "lo") (← nat "hi"))
   else none
